@@ -77,6 +77,8 @@ impl WrapConfig {
             // The input can contain ANSI sequences, so round up a bit. This is enough for
             // normal `git diff`, but might not be with ANSI heavy input.
             0 => 0,
+            // (a limit of 0 means that lines are not truncated at all)
+            _ if max_line_length == 0 => 0,
             wrap_max_lines => {
                 let single_pane_width = available_terminal_width / 2;
                 let add_25_percent_or_term_width =
